@@ -16,7 +16,7 @@
    [Inv c src k st]: the data replicated from c is exactly the first k source payloads, each once and in
    order, and the recorded position is the k-th entry's (absent for k = 0). *)
 From Coq Require Import List NArith Bool Arith Sorted.
-From ZV Require Import Sync.Consts Sync.Model Sync.Proofs Sync.Sender Sync.ProofsSender.
+From ZV Require Import Sync.Consts Sync.Model Sync.Proofs Sync.Sender Sync.ProofsSender Sync.Conflict Sync.ProofsConflict.
 Import ListNotations.
 Open Scope N_scope.
 
@@ -157,6 +157,23 @@ Theorem C19_sender_safety : forall c src evs,
     (sd_buf (snd (sys_run c src evs)) <= K)%nat.
 Proof. exact sender_safety. Qed.
 Print Assumptions C19_sender_safety.
+
+(* (8) the receiver that is NOT syncer-only (Sync/Conflict.v: key versions, the conflict pre-check per command).
+       The code runs the pre-check on live apply only (recheck = false): a restart changes the data — the open
+       known finding, with its witness; if the pre-check also ran on replay (recheck = true, the candidate repair), or
+       on a syncer-only receiver, restart commutes whenever the mode flag does not change. *)
+Theorem C19_m0_restart_refuted :
+  cd_journal (cs_data (cn_cur (crun false m0_witness))) = [(1, 10)] /\
+  cs_synced (cn_cur (crun false m0_witness)) = [(1, mkSS 1 2 1000)] /\
+  cd_journal (cs_data (cn_cur (crun false (m0_witness ++ [CRestart])))) = [(1, 10); (1, 20)].
+Proof. exact m0_restart_refuted. Qed.
+Print Assumptions C19_m0_restart_refuted.
+
+Theorem C19_conflict_restart_commutes : forall recheck m ops,
+  m = false \/ recheck = true -> mode_const m ops ->
+  cn_cur (crun recheck ((CMode m :: ops) ++ [CRestart])) = cn_cur (crun recheck (CMode m :: ops)).
+Proof. exact conflict_restart_commutes. Qed.
+Print Assumptions C19_conflict_restart_commutes.
 
 (* ---------- non-vacuity and the role of the hypotheses ---------- *)
 
